@@ -48,6 +48,12 @@ LONG = {"name": "L", "sizes": [1, 2], "enclens": [505], "modes": [1], "maxbatche
         "shapes": ["d8h1l1long"], "biases": [4, 1], "per_history": 1, "design": False}
 
 
+# wide batches: 256 lines decoded together (a per-line flag kept in 8 bits wraps at 256); trace validation only - the
+# protocol model would have to enumerate 3^256 symbol columns per step
+WIDE = {"name": "W", "sizes": [256], "enclens": [2], "modes": [1], "maxbatches": 1, "syms": ["b", "c"],
+        "shapes": ["d16h2l2"], "biases": [0, 1], "per_history": 1, "design": False, "strict": False}
+
+
 def constants(b, variant="ok", **over):
     c = {"Sizes": set(b["sizes"]), "EncLens": set(b["enclens"]), "Syms": set(b["syms"]), "Modes": {bool(m) for m in b["modes"]},
          "MaxBatches": b["maxbatches"], "Variant": variant}
@@ -98,7 +104,10 @@ def _describe(tr, k):
 def judge(ctx, b, cases, traces):
     strict = trace_constants(b, True)
     loose = trace_constants(b, False)
-    acc, rej = ctx.validate("TransformerCache_Trace", traces, constants=strict, label="TransformerCache_Trace %s strict" % b["name"])
+    if b.get("strict", True):
+        acc, rej = ctx.validate("TransformerCache_Trace", traces, constants=strict, label="TransformerCache_Trace %s strict" % b["name"])
+    else:       # wide batches: the protocol-level (strict) pass would branch over 256 lines; they are judged at the property level only
+        acc, rej = 0, [(i, 0) for i in range(len(traces))]
     rejected = {r[0] for r in rej}
     for c, tr in zip(cases, traces):
         ctx.count(1, (b["name"], c["shape"], c["bias"], c["seed"], str(c["batches"])) if len(tr["batches"]) >= 2 else None)
@@ -129,7 +138,7 @@ def judge(ctx, b, cases, traces):
                 ctx.violation({"bounds": b, "case": cases[i], "trace": traces[i], "progress": bad[k]}, sig,
                               "%s; model %s bias %s seed %d history %s" % (what, cases[i]["shape"], C.BIASES[cases[i]["bias"]],
                                                                           cases[i]["seed"], cases[i]["batches"]))
-            else:
+            elif b.get("strict", True):
                 ctx.model_drift("%s: history is not a behaviour of the protocol model (iterations / cache re-allocation / batch dimension) "
                                 "but every property-level clause holds" % b["name"], 1, cases[i])
 
@@ -158,7 +167,7 @@ def run(ctx):
                "length cap + 1 < max_seq_len of the model (otherwise the code raises SequenceTooLongException by design)",
                "transcribe_batch is called directly (run_ocr pads every batch to 1088 px, which would only change the encoder length)")
     sharpness(ctx)
-    for b in bounds(ctx.tier) + [LONG]:
+    for b in bounds(ctx.tier) + [LONG, WIDE]:
         if b.get("design", True):
             design(ctx, b)
         cases = cases_of(ctx, b)
